@@ -52,10 +52,15 @@ def run_machine(cases, w=2, monitors=True, max_level=4000, timeout=900, workers=
 
 class Item:
     """One case for Refine: a source text, a build configuration and an argument vector."""
-    def __init__(self, key, src, args=(), w=2, s=500, unchecked=False, opt=None, meta=None):
+    def __init__(self, key, src, args=(), w=2, s=500, unchecked=False, opt=None, meta=None,
+                 sem_src=None, sem_args=None):
         self.key = key
         self.src = src
         self.args = list(args)
+        # the source semantics may be taken from a different (twin) program, e.g. the run-time form of a
+        # constant expression (C14): the compiled `src` must behave like HiDSem(sem_src, sem_args)
+        self.sem_src = sem_src
+        self.sem_args = None if sem_args is None else list(sem_args)
         self.w = w
         self.s = s
         self.unchecked = unchecked
@@ -86,10 +91,12 @@ def prepare(items, w):
         if isinstance(compiled[ck], Exception):
             it.skip = 'compile: %s' % compiled[ck]
             continue
-        tk = (it.src, it.w, tuple(sorted(it.opt.items())))
+        ssrc = it.sem_src if it.sem_src is not None else it.src
+        sargs = it.sem_args if it.sem_args is not None else it.args
+        tk = (ssrc, it.w, tuple(sorted(it.opt.items())))
         if tk not in translated:
             try:
-                tr = ir.Translator(it.src, w=it.w, **it.opt)
+                tr = ir.Translator(ssrc, w=it.w, **it.opt)
                 sources.append(tr.source_record())
                 translated[tk] = (tr, len(sources))
             except (ir.Unsupported, hidc_api.Rejected) as e:
@@ -99,7 +106,7 @@ def prepare(items, w):
             continue
         tr, sidx = translated[tk]
         try:
-            crec = ir.case_record(tr, sidx, it.args)
+            crec = ir.case_record(tr, sidx, sargs)
             ec = export.Case(it.key, compiled[ck], it.args, meta={'hcase': len(cases_txt) + 1})
             ec.program = sasm.Program(ec.lines, ec.args)
         except (ir.Unsupported, sasm.AsmError, ValueError) as e:
